@@ -9,7 +9,8 @@ ID = 'C13'
 TRANSLATORS = []
 PROPERTY_FILE = 'Properties/C13.v'
 THEOREMS = ['C13_mismatched_shapes_rejected', 'C13_ok_implies_equal_shapes', 'C13_miter_correct',
-            'C13_miter_true_iff_differ', 'C13_example']
+            'C13_miter_true_iff_differ', 'C13_miter_total_default_names', 'C13_miter_total',
+            'C13_default_names_no_clash', 'C13_example']
 PARTIAL = {}
 LEVEL_TEXT = ('proved for the model of build_miter (the composition add_circuit + two left connections + pairwise xor + '
               'OR/IFF of the modelled operations), for every normal return on well formed operands with non-empty block '
@@ -18,16 +19,18 @@ LEVEL_TEXT = ('proved for the model of build_miter (the composition add_circuit 
               'and every total assignment of the miter inputs the output is defined and is True exactly when some pair '
               'of corresponding outputs of the two circuits differs (left circuit read at the miter inputs, i-th input '
               'of the right circuit = i-th input of the left one); mismatched shapes give MiterDifferentShapesError '
-              'for all arguments, and a normal return implies equal shapes. Operands are unmodified because the model '
+              'for all arguments, and a normal return implies equal shapes; totality: with the block names of the implementation '
+              '("circuit1", "circuit2") build_miter returns normally for ALL well formed operands of equal shapes, and for '
+              'arbitrary names exactly under the stated no-clash condition. Operands are unmodified because the model '
               'is purely functional; the implementation side of that and the tie model = code come from the exact '
               'state correspondence and the truth-table oracle')
 LEVEL_NOTE = ('Coq kernel + vm_compute (example); hand-written model Model/Miter.v over Model/Connect.v / Circuit.v '
               '(with the D3 repair: IFF instead of a one-operand OR), Model/Sem.v, Model/Den.v via Generated/Operators.v '
               '(translator T1). Hypotheses: WF l, WF r, block names non-empty; for the functional statement also '
               'arity_ok l, arity_ok r (every gate has an operand count its operator accepts; otherwise outputs may have '
-              'no value) and at least one output. No totality theorem: the statement is about normal returns; '
-              'build_miter raises when a prefixed label or block name clashes (e.g. a block of the right circuit '
-              'named so that "circuit2@k" equals an existing block), which the default names exclude by their shape')
+              'no value) and at least one output. Totality (C13_miter_total*) needs WF and equal shapes only; for non-default block '
+              'names the side condition MiterNoClash (Proofs/SemMiterTotal.v) lists the label / block-name clashes that '
+              'make the code raise')
 TECHNIQUE = ('Coq proof as a corollary of the C10 composition theorems (structure theorem three times, left-connection '
              'semantics), the xor gate, existence of Boolean values on well formed arity-correct circuits, and the '
              'n-ary OR fold; model tied to /repo by full-state correspondence and the truth-table oracle')
